@@ -760,10 +760,12 @@ example : (kernel { overrunStaleEnv with maxAttempts := 0 } 50).halt = none ∧
     (kernel { overrunStaleEnv with maxAttempts := 0 } 50).st.removals = 1 := by decide +kernel
 
 /-- `VariableDensityPoissonMaskFunc.mask_func` around the kernel (`assemblePoisson`, what the driver runs for the
-generator-level comparison): without `crop_corner` it is the generic assembly `kernel mask ∨ ACS disc` of
-`assemble`, so `shape_contract`, `per_frame_pattern` and `C06.acs_subset_mask` apply to it … -/
-theorem poisson_assemble_eq_assemble (m : Mode) (shape : List Nat) (radius : Int) (ks : List (List Bool)) :
-    assemblePoisson m shape radius none ks = assemble .poisson m shape (.disc radius) false ks := by
+generator-level comparison) is the generic assembly `interior ∨ ACS disc` of `assemble` with the (corner-cropped)
+kernel mask as interior — so `shape_contract`, `per_frame_pattern` and `C06.acs_subset_mask` apply to it, with and
+without `crop_corner` -/
+theorem poisson_assemble_eq_assemble (m : Mode) (shape : List Nat) (radius : Int) (crop : Option (List Bool))
+    (ks : List (List Bool)) :
+    assemblePoisson m shape radius crop ks = assemble .poisson m shape (.disc radius) false (ks.map (cropKernel crop)) := by
   unfold assemblePoisson assemble
   cases callGuard m shape.length with
   | error e => rfl
@@ -771,31 +773,26 @@ theorem poisson_assemble_eq_assemble (m : Mode) (shape : List Nat) (radius : Int
     simp only [Gen.isKt, Bool.false_eq_true, if_false, Gen.family]
     unfold assembleFrames
     simp only [acsFrame, Option.isSome_some, List.all_eq_true, implies_true, if_true, Option.getD_some, frameData,
-      framePattern, Bool.false_eq_true, if_false, List.length_map]
-    have e : (poissonFrame (rowsOf shape) (colsOf shape) radius none) =
-        fun p => orL p (centeredDisk (rowsOf shape) (colsOf shape) radius) := by
+      framePattern, Bool.false_eq_true, if_false, List.length_map, List.map_map]
+    have e : (poissonFrame (rowsOf shape) (colsOf shape) radius crop) =
+        ((fun p => orL p (centeredDisk (rowsOf shape) (colsOf shape) radius)) ∘ cropKernel crop) := by
       funext p; rfl
     rw [e]
 
-/-- … and with `crop_corner` (the ACS disc is cropped as well) the documented shape still holds -/
+/-- the documented shape of what `assemblePoisson` returns -/
 theorem poisson_assemble_shape_contract (m : Mode) (shape : List Nat) (radius : Int) (crop : Option (List Bool))
     (ks : List (List Bool)) (t : Tensor Bool) (h : assemblePoisson m shape radius crop ks = .ok t) :
-    t.shape = maskShape m shape ∧ ∀ coil, Broadcasts t.shape (coil :: shape) := by
-  unfold assemblePoisson at h
-  cases hc : callGuard m shape.length with
-  | error e => rw [hc] at h; cases h
-  | ok u =>
-    rw [hc] at h
-    simp only at h
-    unfold reshapeAndAddCoil at h
-    split at h
-    · cases h
-    · rename_i hr
-      split at h
-      · cases h
-      · simp only [Except.ok.injEq] at h
-        subst h
-        exact ⟨rfl, fun coil => mask_shape_broadcasts m shape coil (by omega)⟩
+    t.shape = maskShape m shape ∧ t.data.length = prod t.shape ∧ ∀ coil, Broadcasts t.shape (coil :: shape) := by
+  rw [poisson_assemble_eq_assemble] at h
+  exact shape_contract _ _ _ _ _ _ t h
+
+/-- the order before the repair `2480376` cropped the ACS disc as well: 3 × 3 grid, disc of radius 2 (all 9 cells),
+crop keeping only the centre — pinned frame 1 cell, repaired frame the whole disc -/
+theorem poisson_crop_pinned_violates :
+    (poissonFramePinned 3 3 2 (some [false, false, false, false, true, false, false, false, false])
+      (List.replicate 9 false)).count true = 1 ∧
+    (poissonFrame 3 3 2 (some [false, false, false, false, true, false, false, false, false])
+      (List.replicate 9 false)).count true = 9 := by decide
 
 end PoissonKernel
 
